@@ -986,8 +986,16 @@ class BaseImage(metaclass=ImageMeta):
             raise ValueError(f"Unknown render method {method!r} for {cls.__name__}")
 
         if not method:
-            if cls._render_methods:
+            if "_default_render_method" in vars(cls):
+                # A style class that defines its own render methods falls back to
+                # its own default
                 cls._render_method = cls._default_render_method
+            else:
+                # Otherwise, follow the parent style class again
+                try:
+                    del cls._render_method
+                except AttributeError:
+                    pass
         else:
             cls._render_method = method
 
